@@ -4,7 +4,11 @@
    Every theorem is for all point lists, all root boxes, all insertion orders and all fuel values
    (a run that ends with `Done` is a run of the C++; `insert_fuel` bounds the recursion on grids and
    `insert_terminates` shows that for every input some fuel gives `Done`, so `OutOfFuel` is only ever
-   a too small fuel argument, never a property of the input).  Only statements here; proofs are in QuadTree_Proof_*.v. *)
+   a too small fuel argument, never a property of the input).  Only statements here; proofs are in QuadTree_Proof_*.v.
+   Theorems 11-12: every theta (QuadTree_Proof_Theta.v).  Theorems 13-15: binary64 - the box arithmetic of the code in Coq
+   primitive floats (QuadTree_Float_Model.v), the rounding crack F25 as a theorem, its absence on grid inputs with headroom
+   and the refinement of the exact model there (QuadTree_Proof_Float.v, QuadTree_Proof_FloatExact.v, QuadTree_Proof_FloatQ.v;
+   these three use the PrimFloat axioms of the standard library and, the last two, Flocq 4.1 and the classical reals). *)
 From Coq Require Import List Arith Bool ZArith QArith Permutation Reals.
 From TK Require Import QuadTree_Model QuadTree_Spec QuadTree_SpecExec QuadTree_Proof_Base
                        QuadTree_Proof_Insert QuadTree_Proof_Main QuadTree_Proof_Forces
